@@ -138,3 +138,40 @@ def run_seeds_for_property(prop, rep):
         print('  seeded  %-45s %-11s %s' % (name, status, detail[:160]))
     rep.extra['independent_seeded_changes'] = summary
     rep.note('independent seeded changes for this property (checker sensitivity): %(caught)d/%(seeded_changes)d reported by this check' % summary)
+
+
+def _run_refactor(args):
+    prop, name = args
+    d = os.path.join(VERIF, 'refactors', name)
+    tmp = tempfile.mkdtemp(prefix='verif-refac-')
+    try:
+        dst = os.path.join(tmp, 'repo')
+        os.makedirs(os.path.join(dst, 'src'))
+        shutil.copytree(os.path.join(REPO, 'src', 'ssh_audit'), os.path.join(dst, 'src', 'ssh_audit'), ignore=shutil.ignore_patterns('__pycache__'))
+        shutil.copy(os.path.join(REPO, 'ssh-audit.py'), os.path.join(dst, 'ssh-audit.py'))
+        p = subprocess.run(['patch', '-s', '-p1', '-i', os.path.join(d, 'patch.diff')], cwd=dst, capture_output=True, text=True)
+        if p.returncode != 0:
+            return (name, 'stale', 'patch does not apply to the current tree')
+        env = dict(os.environ, VERIF_REPO=dst, VERIF_OUT_DIR=os.path.join(tmp, 'out'), VERIF_EVIDENCE_DIR=os.path.join(tmp, 'ev'), VERIF_NO_BATTERY='1', PYTHONDONTWRITEBYTECODE='1')
+        r = subprocess.run([sys.executable, os.path.join(VERIF, 'check.py'), prop, '--tier', 'quick'], env=env, capture_output=True, text=True, timeout=600)
+        viol = [l for l in r.stdout.splitlines() if l.startswith(prop + ' [') or l.startswith('ANALYSIS-ERROR')]
+        return (name, 'ok' if r.returncode == 0 else ('undecided' if r.returncode == 2 else 'FALSE-ALARM'), 'exit=%d %s' % (r.returncode, (viol[0][:200] if viol else '')))
+    finally:
+        shutil.rmtree(tmp, ignore_errors=True)
+
+
+def run_refactors_for_property(prop, rep):
+    """Independent behaviour-preserving refactorings (kept under /verif/refactors): each is re-applied to a scratch copy of the current tree; this
+    property's quick check must stay silent on it (exit 2, "cannot decide", is recorded separately).  Checker-robustness data, never decides the property."""
+    root = os.path.join(VERIF, 'refactors')
+    names = sorted(n for n in os.listdir(root) if os.path.exists(os.path.join(root, n, 'patch.diff'))) if os.path.isdir(root) else []
+    if not names:
+        return
+    with concurrent.futures.ProcessPoolExecutor(max_workers=min(8, len(names))) as ex:
+        res = list(ex.map(_run_refactor, [(prop, n) for n in names]))
+    summary = {'refactorings': len(res), 'silent': sum(1 for r in res if r[1] == 'ok'), 'undecided': [r[0] for r in res if r[1] == 'undecided'], 'problems': ['%s: %s %s' % r for r in res if r[1] not in ('ok', 'undecided')]}
+    for name, status, detail in res:
+        if status != 'ok':
+            print('  refactor %-43s %-11s %s' % (name, status, detail[:160]))
+    rep.extra['independent_refactorings'] = summary
+    rep.note('independent behaviour-preserving refactorings (checker robustness): silent on %(silent)d/%(refactorings)d' % summary)
